@@ -57,6 +57,7 @@ enum Sub
     G_CLEAR,
     G_FILL_HEADER,
     G_ITER_CURSOR,
+    G_ITER_INDEXED, // flat groups: *(begin()+i), begin()[i], (end()-1-i) for every i
     // data
     D_ADDR,
     D_SIZE,
